@@ -4,6 +4,7 @@ import (
 	"bytes"
 
 	"github.com/yuin/goldmark"
+	"github.com/yuin/goldmark/ast"
 	"github.com/yuin/goldmark/extension"
 	"github.com/yuin/goldmark/parser"
 	"github.com/yuin/goldmark/renderer"
@@ -47,6 +48,24 @@ func NewMD(cfg string) goldmark.Markdown {
 			exts = append(exts, extension.Footnote)
 		case "typographer":
 			exts = append(exts, extension.Typographer)
+		case "footnoteopts":
+			// every footnote option set; ^^ is replaced by the footnote index, %% by its reference count
+			exts = append(exts, extension.NewFootnote(
+				extension.WithFootnoteIDPrefix("p-"),
+				extension.WithFootnoteLinkTitle("l ^^ %% \"q\" <t>"),
+				extension.WithFootnoteBacklinkTitle("b ^^ %% & 'r'"),
+				extension.WithFootnoteLinkClass("lc^^"),
+				extension.WithFootnoteBacklinkClass("bc%%"),
+				extension.WithFootnoteBacklinkHTML("^^:%%"),
+			))
+		case "footnotefn":
+			exts = append(exts, extension.NewFootnote(extension.WithFootnoteIDPrefixFunction(func(n ast.Node) []byte {
+				return []byte("f" + string(rune('0'+n.ChildCount()%10)) + "-")
+			})))
+		case "linkifyopts":
+			exts = append(exts, extension.NewLinkify(extension.WithLinkifyAllowedProtocols([]string{"http:", "x-y:", "javascript:"})))
+		case "tablenone":
+			exts = append(exts, extension.NewTable(extension.WithTableCellAlignMethod(extension.TableCellAlignNone)))
 		case "typonoangle", "typonodash", "typonoquote":
 			// the typographer with some substitutions switched off (nil)
 			subs := extension.TypographicSubstitutions{}
@@ -173,6 +192,9 @@ func sourceCore() []byte {
 	p := vp.ParamInt("pos", 0)
 	w := vp.ParamInt("window", 1)
 	src := []byte(seed)
+	if p > len(src) {
+		p = len(src)
+	}
 	hole := vp.Bytes("b", w)
 	alphabetAssume(hole)
 	if p+w > len(src) {
